@@ -102,6 +102,10 @@ def gen_c03(ch, spec):
     # separate configuration: the offer's codec lines as another implementation would order them
     cfg["rtx_last"] = ch.chance("cfg", 0.12)
     cfg["turn"] = fakes.gen_turn(ch, ["A", "B"])
+    if ch.chance("cfg", 0.25):
+        # the offering application changes a transceiver's direction preference while its offer is out (a hold button
+        # pressed between setLocalDescription(offer) and the answer): it counts for the next round, not for this one
+        cfg["midround_direction"] = {"idx": ch.index("cfg", 4), "direction": ch.choice("cfg", ["sendrecv", "sendonly", "recvonly", "inactive"])}
     ops = []
     # follow-up negotiations that add media / a data channel, possibly swapping the offering side
     for _ in range(ch.choice("wl", [0, 0, 1, 1, 2])):
@@ -347,6 +351,12 @@ class C03World(PcWorld):
         if exc is not None:
             return self.neg_fail(tag, offerer, "setLocalDescription(offer)", exc)
         offer_text = X.pc.localDescription.sdp
+        mr = self.cfg.get("midround_direction")
+        if mr:
+            ts = [t for t in X.pc.getTransceivers() if not t.stopped]
+            if ts:
+                X.ctx.run(setattr, ts[mr["idx"] % len(ts)], "direction", mr["direction"])
+                self.probes["directions_changed_while_an_offer_was_out"] += 1
         if self.cfg.get("rtx_last"):
             munged = reorder_rtx_last(offer_text)
             if munged != offer_text:
